@@ -23,7 +23,8 @@ FixedDevs == {
     "avail_requires_cache",     \* resolver.rs:529  completion view consulted imports only if conftest is in file_cache (fixed a7d180e)
     "scope_check_first_def",    \* resolver.rs:1673 scope check compared with definitions[dep].first() (fixed 18e3410)
     "cycle_hash_order_roots",   \* resolver.rs:1533 DFS roots iterated a randomly seeded HashMap (fixed f0d21d2)
-    "version_only_on_add"       \* mod.rs:155 / analyzer.rs:273 version bumped only when a def is recorded (fixed e7e7c04)
+    "version_only_on_add",      \* mod.rs:155 / analyzer.rs:273 version bumped only when a def is recorded (fixed e7e7c04)
+    "unused_autouse_per_def"    \* cli.rs:466 autouse read from every definition of a (file, name) entry, not from its last one (fixed, see KNOWN_FINDINGS)
 }
 
 AllDevs == {
@@ -429,10 +430,19 @@ ImplCliCountSeq(ix, D, f, n) ==
         RECURSIVE Sum(_)
         Sum(S) == IF S = {} THEN 0 ELSE LET g == CHOOSE x \in S : TRUE IN Len(all[g]) + Sum(S \ {g})
     IN  Sum(Files)
+\* cli.rs get_unused_fixtures: autouse fixtures are skipped.  Deviation unused_autouse_per_def: the flag was read from EVERY
+\* definition of a (file, name) entry, so an entry whose last (effective) definition is autouse was still listed when an
+\* earlier, shadowed definition of the same name in the same file was not.
+AllRecsOf(ix) == UNION { { ix.defs[n][j] : j \in 1..Len(ix.defs[n]) } : n \in IndexNames(ix) }
+LastOfEntry(ix, x) ==
+    LET S == { y \in AllRecsOf(ix) : y.file = x.file /\ y.name = x.name }
+    IN  CHOOSE y \in S : \A z \in S : z.idx <= y.idx
 ImplUnused(ix, D) ==
     { [file |-> r.file, name |-> r.name] :
-        r \in { x \in UNION { { ix.defs[n][j] : j \in 1..Len(ix.defs[n]) } : n \in IndexNames(ix) } :
-                ~x.third /\ ~x.autouse /\ ImplCliCountSeq(ix, D, x.file, x.name) = 0 } }
+        r \in { x \in AllRecsOf(ix) :
+                /\ ~x.third
+                /\ (IF "unused_autouse_per_def" \in D THEN ~x.autouse ELSE ~LastOfEntry(ix, x).autouse)
+                /\ ImplCliCountSeq(ix, D, x.file, x.name) = 0 } }
 
 (***************************************************************************)
 (* Building an index from a workspace in a given analysis order            *)
